@@ -63,6 +63,13 @@ class Runner:
         deaths = 0
         while i < len(probes):
             out, crash, info = archgen.run_impl(self.exe, head + probes[i:], timeout=300)
+            if len(out) < len(head) and str(crash) == "timeout":
+                # the head only writes the undamaged archive: a time-out there is machine load, not a reader hang;
+                # run the head alone once more (a second time-out is reported)
+                out2, crash2, _ = archgen.run_impl(self.exe, head, timeout=600)
+                if len(out2) >= len(head) and crash2 is None:
+                    self.stats["head_timeouts_retried"] = self.stats.get("head_timeouts_retried", 0) + 1
+                    out, crash, info = archgen.run_impl(self.exe, head + probes[i:], timeout=900)
             if len(out) < len(head):
                 res += ["CRASH in-head:" + str(crash)] * (len(probes) - i)
                 break
@@ -95,6 +102,14 @@ class Runner:
             # …or stopped with a reported error raised by *another* damaged byte of the same probe: the destructor
             # still runs the fix-ups that were queued with the in-range index (crash inside the fix-up pass only)
             fixup_pass = re.search(r"@(mfuse::)?(SafePtrBase::(AddReference|RemoveReference|InitSafePtr)|Archiver::Close)", impl)
+            if pc in ("data", "flag") and model.startswith("ok") and fixup_pass:
+                # a payload byte of a script value can itself be an object-index field (holder / pointer-cell / Ref
+                # references inside values and variable lists): the same input class as the known finding, recognised
+                # here only when the crash is in the fix-up pass
+                return ("violation", "crash:index-damage-in-range",
+                        "a payload byte that is an index field inside a script value was changed to another index inside "
+                        "the table; the reader went on (model: %s) and the fix-up pass resolved a pointer to an object of "
+                        "the wrong type: %s" % (model[:40], impl[6:]))
             if pc in ("idx", "multi+idx") and (model.startswith("ok") or (
                     pc == "multi+idx" and fixup_pass and not model.startswith("UB:") and model != "InvalidObjectIndex")):
                 # the damaged index is still inside the object table: the format has no type information, a pointer
